@@ -33,7 +33,7 @@ var (
 	durationType        = reflect.TypeOf(time.Duration(0))
 	cacheKeys           = make(map[string][]string)
 	cacheKeysLock       sync.Mutex
-	defaultCache        = make(map[defaultCacheKey]any)
+	defaultCache        = make(map[string][]string)
 	defaultCacheLock    sync.Mutex
 	emptyMap            = map[string]any{}
 	emptyValue          = reflect.ValueOf(lang.Placeholder)
@@ -55,12 +55,6 @@ type (
 		fromString   bool
 		opaqueKeys   bool
 		canonicalKey func(key string) string
-	}
-
-	// defaultCacheKey identifies a parsed slice default: the text and how it was parsed.
-	defaultCacheKey struct {
-		value       string
-		stringElems bool
 	}
 )
 
@@ -276,25 +270,28 @@ func (u *Unmarshaler) fillSliceValue(slice reflect.Value, index int,
 func (u *Unmarshaler) fillSliceWithDefault(derefedType reflect.Type, value reflect.Value,
 	defaultValue, fullName string) error {
 	baseFieldType := Deref(derefedType.Elem())
-	baseFieldKind := baseFieldType.Kind()
-	// string elements and other elements parse the same text differently
-	cacheKey := defaultCacheKey{value: defaultValue, stringElems: baseFieldKind == reflect.String}
-	defaultCacheLock.Lock()
-	slice, ok := defaultCache[cacheKey]
-	defaultCacheLock.Unlock()
-	if !ok {
-		if baseFieldKind == reflect.String {
-			slice = parseGroupedSegments(defaultValue)
-		} else if err := jsonx.UnmarshalFromString(defaultValue, &slice); err != nil {
+	if baseFieldType.Kind() != reflect.String {
+		// decoded for this target alone: the maps and slices inside a decoded default are
+		// stored in the target as they are, a memoised copy would be shared by every target
+		var slice any
+		if err := jsonx.UnmarshalFromString(defaultValue, &slice); err != nil {
 			return err
 		}
 
+		return u.fillSlice(derefedType, value, slice, fullName)
+	}
+
+	defaultCacheLock.Lock()
+	segments, ok := defaultCache[defaultValue]
+	defaultCacheLock.Unlock()
+	if !ok {
+		segments = parseGroupedSegments(defaultValue)
 		defaultCacheLock.Lock()
-		defaultCache[cacheKey] = slice
+		defaultCache[defaultValue] = segments
 		defaultCacheLock.Unlock()
 	}
 
-	return u.fillSlice(derefedType, value, slice, fullName)
+	return u.fillSlice(derefedType, value, segments, fullName)
 }
 
 func (u *Unmarshaler) fillStructElement(baseType reflect.Type, target reflect.Value,
